@@ -92,6 +92,15 @@ def _has_dictionary_columns(schema: pa.Schema) -> bool:
     return any(pa.types.is_dictionary(f.type) for f in schema)
 
 
+def _type_contains_dictionary(data_type: pa.DataType) -> bool:
+    """Check if *data_type* is, or nests at any depth, a dictionary-encoded type."""
+    if pa.types.is_dictionary(data_type):
+        return True
+    if isinstance(data_type, pa.BaseExtensionType):
+        return _type_contains_dictionary(data_type.storage_type)
+    return any(_type_contains_dictionary(data_type.field(i).type) for i in range(data_type.num_fields))
+
+
 # ---------------------------------------------------------------------------
 # _ShmSink — file-like wrapper for direct IPC writes into shared memory
 # ---------------------------------------------------------------------------
@@ -435,7 +444,17 @@ class ShmSegment:
             # metadata), so it is measured rather than covered by a fixed
             # allowance: an undersized region lets the writer run into the
             # next allocation.
-            estimated = batch.schema.serialize().size + ipc.get_record_batch_size(batch) + len(_IPC_EOS)
+            if any(_type_contains_dictionary(f.type) for f in batch.schema):
+                # A dictionary nested inside a list/struct/map column makes the
+                # writer emit dictionary messages ahead of the record batch,
+                # which the closed-form estimate does not count: measure.
+                counter = pa.MockOutputStream()
+                dry_run = new_ipc_stream(counter, batch.schema)
+                dry_run.write_batch(batch)
+                dry_run.close()
+                estimated = counter.size()
+            else:
+                estimated = batch.schema.serialize().size + ipc.get_record_batch_size(batch) + len(_IPC_EOS)
             offset = self._allocator.allocate(estimated)
             if offset is None:
                 return None
